@@ -12,7 +12,7 @@ from ..rtc import par
 
 LEVEL = "exploration"
 KNOWN = os.path.join(common.ROOT, "known", "C05_failing.json.gz")
-KINDS = {"c": "cat", "e": "cat", "x": "num", "z": "num", "g": "cat", "k": "cat", "h": "cat", "n": "num"}
+KINDS = {"c": "cat", "e": "cat", "x": "num", "z": "num", "g": "cat", "k": "cat", "h": "cat", "n": "num", "x_c": "num", "gc": "cat"}
 
 # effect expressions: (text, list of effect terms as tuples, intercept present)
 EFFECTS = [
@@ -22,13 +22,15 @@ EFFECTS = [
     ("x:c", [("x", "c")], True), ("0 + c:x", [("c", "x")], False), ("c + e", [("c",), ("e",)], True),
     ("0 + c + e", [("c",), ("e",)], False), ("c:e", [("c", "e")], True), ("0 + c:e", [("c", "e")], False),
     ("c*e", [("c",), ("e",), ("c", "e")], True), ("c*x", [("c",), ("x",), ("c", "x")], True),
-    ("scale(x)", [("x",)], True), ("C(c)", [("c",)], True), ("0 + C(c)", [("c",)], False), ("x + x:c", [("x",), ("x", "c")], True),
+    ("scale(x)", [("x",)], True), ("0 + center(x)", [("x_c",)], False), ("0 + c:center(x)", [("c", "x_c")], False), ("C(c)", [("c",)], True), ("0 + C(c)", [("c",)], False), ("x + x:c", [("x",), ("x", "c")], True),
 ]
 # grouping expressions: (text, list of factor terms)
 GROUPS = [("g", [("g",)]), ("g + h", [("g",), ("h",)]), ("g:h", [("g", "h")]), ("h:g", [("h", "g")]),
           ("g/h", [("g",), ("g", "h")]), ("C(k)", [("k",)]),
           # a numeric column used as grouping factor (forced to categoric): levels in numeric order, not in string order
-          ("k", [("k",)]), ("k:h", [("k", "h")])]
+          ("k", [("k",)]), ("k:h", [("k", "h")]),
+          # an unordered pandas Categorical (categories listed in another order, one of them unused) inside C(): sorted observed levels
+          ("C(gc)", [("gc",)]), ("C(gc):h", [("gc", "h")])]
 EXTRA = [  # combinations of several group terms
     "(0 + c|g) + (1|g)", "(1|g) + (0 + c|g)", "(0 + c|g) + (x|g)", "(1|g) + (0 + c|g + h)", "(1|h) + (0 + c|g + h)",
     "(0 + c|g + h) + (x|h)", "(x|g) + (0 + z|g)", "(1|g) + (0 + x|g) + (0 + c|g)", "(c|g) + (e|h)", "(0 + x|g) + (1|h)",
@@ -57,6 +59,8 @@ def frame(seed):
                         numerics=("x", "z"))
     d["k"] = d["g"].map({"u": 10, "v": 5, "w": 100})
     d["n"] = d["c"].map({"a": 3, "b": 11, "cc": 7})      # numeric codes, crossed with g and h
+    d["x_c"] = d["x"] - d["x"].mean()                    # what center(x) is on THIS frame
+    d["gc"] = pd.Categorical(d["g"], categories=["w", "zz", "v", "u"])
     return d
 
 
@@ -88,6 +92,12 @@ def evaluate(formula, spec, d):
     from formulae import design_matrices
     from ..rtc.designs import model_space, failure_signature
     from ..rtc.gen import rank, same_span
+    try:       # the same formula on another frame first (other location of x): every design is computed from the frame at hand
+        e = d.copy()
+        e["x"] = e["x"] * 3 + 100
+        design_matrices(formula, e)
+    except Exception:      # noqa: BLE001
+        pass
     try:
         dm = design_matrices(formula, d)
     except Exception as ex:
@@ -97,7 +107,7 @@ def evaluate(formula, spec, d):
     per_factor = {}
     for name, term in dm.group.terms.items():
         fac = tuple(c.name for c in term.factor.components)
-        fac_cols = tuple("k" if v == "C(k)" else v for v in fac)
+        fac_cols = tuple({"C(k)": "k", "C(gc)": "gc"}.get(v, v) for v in fac)
         J, cells = cell_indicator(d, fac_cols)
         Z = np.asarray(dm.group[name], dtype=float).reshape(len(d), -1)
         G = J.shape[1]
@@ -114,6 +124,8 @@ def evaluate(formula, spec, d):
         en = name.split("|")[0]
         if en == "1" and not np.allclose(X, 1):
             return f"block-values: intercept effect of {name} is not 1 on the rows of its group"
+        if en == "center(x)" and not np.allclose(X[:, 0], d["x_c"].values):
+            return f"block-values: effect column of {name} is not x - mean(x) of this frame"
         if en in ("x", "z", "n") and not np.allclose(X[:, 0], d[en].values):
             return f"block-values: effect column of {name} does not carry {en}"
         per_factor.setdefault(fac_cols, []).append(Z)
